@@ -266,6 +266,7 @@ CHECKS["C17"] = {
     "level": "exploration",
     "rule": "Args: every (key,value) pair with 0..2 symbols each over the hostile alphabet {% + & = ; # ? / : @ SP NUL a Z 0 e-acute 0xff quote comma} alone and inside a 3-entry list (round-trip and fixed point); every query string of 0..4 (thorough 0..5) symbols over {% + & = ; a 4 1 %41 %2 %zz SP e-acute / ?} compared with net/url.ParseQuery where it accepts; random lists of arbitrary bytes. "
             "URI: every string of 0..3 (thorough 0..4) alphabet symbols as path segment / inner segment / arg key+value / fragment / raw query x schemes x hosts incl. ports and IPv6 literals (parse(FullURI) equality, fixed point, RequestURI re-parse); random longer ones. "
+            "URI programs: rapid-drawn sequences of 1..7 setter calls (SetQueryString, QueryArgs().Add/Del/Peek, SetPath, SetHash, SetHost, CopyTo) with path normalizing on or off; the URI's own view (getters, QueryArgs() of a copy) when the string is taken must equal what parsing the string yields; non-trivial = two query operations, a query operation after a read, or normalizing off. A fragment with a control byte is run and reported as known finding D36 (counted under excluded). "
             "Cookie: keys x values x domains x paths x all flag subsets x 5 SameSite modes x Max-Age x Expires exhaustively, plus random token/value strings. Non-trivial = a slot contains a byte that must be escaped or a delimiter of its context; exhaustive units are distinct by construction.",
     "assumptions": [
         "excluded by construction (counted): raw query containing '#', raw query/fragment with CTL bytes (URI.parse deliberately refuses them), hosts containing / ? # @, cookie values with ';' or surrounding quotes/spaces",
@@ -278,6 +279,7 @@ CHECKS["C17"] = {
     "technique": "bounded-exhaustive enumeration + rapid; round-trip / fixed-point oracles and differential testing against net/url",
     "nontrivial_floor": 1000,
     "units": [
+        {"name": "uri-programs", "run": "^TestC17URIPrograms$", "kind": "rapid", "checks": {"quick": 20000, "thorough": 400000}, "shards": {"quick": 2, "thorough": 16}},
         {"name": "args-exhaustive", "run": "^TestC17ArgsExhaustive$", "kind": "plain", "shards": 8},
         {"name": "args-vs-neturl", "run": "^TestC17ArgsDifferential$", "kind": "plain", "shards": 8},
         {"name": "args-random", "run": "^TestC17ArgsRandom$", "kind": "rapid", "checks": {"quick": 20000, "thorough": 800000}, "shards": {"quick": 4, "thorough": 16}},
@@ -387,7 +389,7 @@ CHECKS["C11"] = {
     "level": "exploration",
     "rule": "A case is a client configuration (ResponseBodyStream on/off, MaxResponseBodySize unset/100/1 MiB, header-name normalisation on/off, via proxy) and a sequence of 1..5 exchanges through the real HostClient.Do over reactive scripted connections (a response becomes readable only after its request was completely written). "
             "Requests through the public API: method; URL via SetRequestURI or via URI setters (paths with spaces, non-ASCII, + ; = % ~ @ :, query args needing escaping); 0..5 headers via SetHeader/Header.Add, optional Cookie; body none / SetBody / SetBodyStream(known) / SetBodyStream(-1) / SetFormData / multipart fields and file readers; sizes centred on buffer boundaries. "
-            "Responses from the wire generator: statuses 200/201/204/206/302/304/404/500, Content-Length, chunked (+trailers), until-close, bodiless with stray framing headers, 1..2 interim 100 Continue, arbitrary segmentation. Non-trivial = stream/multipart request body, chunked/until-close response, position >= 2 in a sequence, or a size >= 4096; distinct by FNV-64 of the case.",
+            "Responses from the wire generator: statuses 200/201/204/206/302/304/404/500, Content-Length, chunked (+trailers), until-close, bodiless with stray framing headers, 1..2 interim 100 Continue, arbitrary segmentation. Non-trivial = stream/multipart request body, chunked/until-close response, position >= 2 in a sequence, or a size >= 4096; distinct by FNV-64 of the case. URL forms (round 4): no slash after the authority (http://host?next=/home/x), a fragment appended (never to be sent, also not to a proxy), and a query replaced through SetQueryString after the first one had been read.",
     "assumptions": [
         "default headers hertz adds (User-Agent, Content-Type for bodies, Content-Length) are allowed extras; only headers the application set are required to arrive",
         "the client may dial a new connection whenever it likes (closing conservatively is allowed); reusing a connection after a close-delimited or Connection: close response is detected because that connection then yields EOF",
